@@ -20,6 +20,7 @@
 # THE SOFTWARE.
 
 import inspect
+import tokenize
 import ast
 from functools import update_wrapper, partial
 from weakref import WeakValueDictionary
@@ -160,7 +161,9 @@ def get_ast(func):
         return None
     try:
         rawsource = inspect.getsource(code)
-    except (OSError, IOError):
+    except (OSError, IOError, SyntaxError, tokenize.TokenError):
+        # the tokenizer errors: what is at the function's lines in the file
+        # as it is now does not tokenize (the file was edited since)
         return None
     source = inspect.cleandoc('\n' + rawsource)
     try:
